@@ -21,3 +21,5 @@ def check(repo, rep, tier):
     rq.rule_atomic_load(em, rep, 'C04.I6b')
     rs.rule_queries_read_only(em, rep, 'C04.I7')
     rs.rule_context_not_written(em, rep, 'C04.I2b')
+    fr = rs.Freshness(em)
+    rs.rule_fresh_per_use(em, rep, 'C04.I10', fr)
